@@ -156,6 +156,12 @@ fn gen_cases(rng: &mut Rng, tier: Tier) -> Vec<Value> {
             if i % 10 == 6 && !ordered {
                 return json!({"k": "init", "sp": sp, "row": i, "gens": gens.min(10), "relations": true, "rseed": rng.next() % 1000});
             }
+            // one problem in eight has one-way dead ends (routing matrix with `errorCodes`): every leg OUT of the location of one
+            // or two single-task jobs is unreachable, the legs INTO it are not. Such a job can only end an open tour. The choice
+            // depends on the row only (the campaign's random stream is not touched)
+            if i % 8 == 5 {
+                mark_dead_ends(&mut sp, i);
+            }
             json!({"k": "solve", "sp": sp, "row": i, "gens": gens, "relations": rng.chance(1, 4), "rseed": rng.next() % 1000})
         })
         .collect::<Vec<_>>()
@@ -163,6 +169,44 @@ fn gen_cases(rng: &mut Rng, tier: Tier) -> Vec<Value> {
         .chain(history_cases(rng, tier))
         .chain(merge_init_cases())
         .collect()
+}
+
+/// marks the places of one or two single-task jobs as dead ends in every profile (places shared with a vehicle's start, end, reload
+/// or break are left alone)
+fn mark_dead_ends(sp: &mut SProblem, row: usize) {
+    let n = sp.n;
+    let mut taken = vec![false; n];
+    for vt in &sp.vehicles {
+        for sh in &vt.shifts {
+            taken[sh.start_loc] = true;
+            if let Some(e) = &sh.end {
+                taken[e.loc] = true;
+            }
+            sh.reloads.iter().for_each(|r| taken[r.loc] = true);
+            sh.breaks.iter().flat_map(|b| b.places.iter()).filter_map(|p| p.loc).for_each(|l| taken[l] = true);
+        }
+    }
+    let candidates: Vec<usize> = sp
+        .jobs
+        .iter()
+        .filter(|j| j.tasks.len() == 1 && j.tasks[0].places.len() == 1)
+        .map(|j| j.tasks[0].places[0].loc)
+        .filter(|l| !taken[*l])
+        .collect();
+    if candidates.is_empty() {
+        return;
+    }
+    let picks = [candidates[(row * 7 + 3) % candidates.len()], candidates[(row * 13 + 5) % candidates.len()]];
+    for p in sp.profiles.iter_mut() {
+        p.errors = vec![0; n * n];
+        for l in picks.iter().take(1 + row % 2) {
+            for x in 0..n {
+                if x != *l {
+                    p.errors[l * n + x] = 1;
+                }
+            }
+        }
+    }
 }
 
 /// deterministic cases (regression of S62 and a family around it): a FEASIBLE initial solution whose first tour visits a reload of
@@ -216,7 +260,7 @@ fn merge_init_case(cap: i64, res: i64, d0: i64, a: i64, b: i64, c: i64, right_sh
     }
     let sp = SProblem {
         n,
-        profiles: vec![SProfile { name: "car".into(), dur: m.clone(), dist: m }],
+        profiles: vec![SProfile { name: "car".into(), dur: m.clone(), dist: m, errors: vec![] }],
         jobs,
         vehicles: vec![SVehicleType {
             type_id: "t".into(),
